@@ -41,11 +41,11 @@ claim("C20", "R9,R6,R2", "guard truth-table evaluation over the orderings of the
 
 claim("C01", "R13,R14,R28,R29,R30,R31,R32,R36,R37", "provenance classification of every getChunkSize call site (role from where the result flows, kind from where the arguments come) + format-constant table check, in both build-tag configurations",
       "Narrow claim. Decides that the build writer, the merge writer and the reader derive the postings chunk size from (the segment's chunk mode, a postings cardinality, the segment's document count) alike, and that the encoding constants have their v16 values; that per-term accumulators are reset, every encoded location component comes from that location, and the norm word of a posting is written and consumed exactly when its frequency is non-zero (R36). Does not decide which hits/frequencies/locations come back.", TB, "DESIGN.md §3 R13 R14, §4 C01")
-claim("C02", "R19,R26,R27,R33,R10,R29", "path analysis of the stored-field visitor loop (pending/stop typestate over visitor results, edge-sensitive), truth-table evaluation of the document-number guard over the orderings of (num, numDocs), natural-loop exit analysis of DocNumbers",
+claim("C02", "R19,R26,R27,R33,R10,R29,R38", "path analysis of the stored-field visitor loop (pending/stop typestate over visitor results, edge-sensitive), truth-table evaluation of the document-number guard over the orderings of (num, numDocs), natural-loop exit analysis of DocNumbers",
       "Decides that a visitor's stop request is honoured on every path, that document numbers at or beyond Count never index the stored table, and that DocNumbers looks at every given id. Does not decide byte-for-byte round trip of stored values.", TB, "DESIGN.md §3 R19 R26, §4 C02")
 claim("C03", "R13,R4,R20,R15,R26,R27,R31", "chunk-size provenance classification; receiver-provenance analysis of mutating docValueReader methods (clone-before-mutate); edge-sensitive typestate of a reused visit state (fresh / compared / stale); sibling effect comparison and loop-coverage of the two loaders",
       "Decides that doc-value writers and reader derive the chunk size identically, shared readers are only used through private clones, a reused visit state is validated against the segment and emptied when it differs, and both loaders visit every field with the same effects. Does not decide the terms returned.", TB, "DESIGN.md §3 R13 R4 R20 R15 R26, §4 C03")
-claim("C04", "R15,R14,R26,R27,R6", "who-writes analysis of SegmentBase.mem over the call graph; footer writer sequence extraction and loop-free affine path enumeration of the footer reader against the frozen v16 table; CRC fold/seed checks; argument-role checks at both persistFooter call sites and at InitSegmentBase; loader sibling comparison",
+claim("C04", "R15,R14,R26,R27,R6,R13", "who-writes analysis of SegmentBase.mem over the call graph; footer writer sequence extraction and loop-free affine path enumeration of the footer reader against the frozen v16 table; CRC fold/seed checks; argument-role checks at both persistFooter call sites and at InitSegmentBase; loader sibling comparison",
       "Decides that Persist and WriteTo share the one writer routine, that the footer writer and reader equal the v16 table (order, widths, roles, CRC last and seeded, FooterSize, Version), that the in-memory segment is initialised from the bytes/CRC/chunk mode/offsets of its own build, and that the loader siblings agree. Does not decide equality of answers.", TB, "DESIGN.md §3 R15 R14, §4 C04")
 claim("C06", "R13,R17,R24,R18,R25,R26,R28,R29,R12,R31,R32,R33,R34,R36,R37", "chunk-size provenance classification in the merge writer; edge-sensitive path analysis of the byte-copy guard with provenance of fieldsSame; dominance of every use of a remapped number by a sentinel test on a structurally equal element; address-wiring effect summaries; index-space typing of per-segment vs per-field compacted tables; loop coverage",
       "Decides that the merge derives postings/doc-value chunk sizes like the reader, copies posting bytes only under fieldsSame, tests every remapped document number against the drop sentinel before use, records section addresses, and never mixes segment-position and active-position indexes. Does not decide merged values.", TB, "DESIGN.md §3 R13 R17 R24 R18 R25, §4 C06")
